@@ -531,6 +531,19 @@ def garbage_plan(K, ctx, prop):
                 K.account(ctx, tcmds, lambda c: True)
                 K.run_exec(ctx, tcmds, tobs)
                 K.run_judge(ctx, "J_Trace", fmt, tobs, f"garbagetrace_{fmt}_judge", shards=3 if quick else 6)
+            if prop == "C05":
+                # M8 event traces (hooks of the lexical parser): the window of parse_items and every call of the recursive segmenters
+                # (environment, ok, right border) against the specification's operators, on a sixth of the strings
+                tcmds = os.path.join(ctx.rundir, f"lextrace_{fmt}.cmds.ndjson")
+                tobs = os.path.join(ctx.rundir, f"lextrace_{fmt}.obs.ndjson")
+                with open(tcmds, "w", encoding="utf-8") as g:
+                    for i, line in enumerate(open(cmds, encoding="utf-8")):
+                        c = json.loads(line)
+                        if i % 6 == ctx.seed % 6 and c["op"] == "parse_any":
+                            g.write(json.dumps({"op": "trace_lex", "fmt": fmt, "s": c["s"]}, ensure_ascii=False) + "\n")
+                K.account(ctx, tcmds, lambda c: True)
+                K.run_exec(ctx, tcmds, tobs)
+                K.run_judge(ctx, "J_LexTrace", fmt, tobs, f"lextrace_{fmt}_judge", shards=3 if quick else 6)
         return run
     K.parallel([one(f) for f in K.FORMATS])
     ctx.exhaustive = False
@@ -846,6 +859,22 @@ def plan_c02(K, ctx):
 
     K.parallel([(lambda f=f: K.pipeline(ctx, f, "c02", "MC_C02", cfg, "J_C02", nontrivial, workers=6,
                                         shards=5 if ctx.tier == "thorough" else 2)) for f in K.FORMATS])
+    # M8 event traces (hooks of the lexical parser) on the texts the lexical formatter wrote for the universe above
+    def lextrace(fmt):
+        def run():
+            src = os.path.join(ctx.rundir, f"c02_{fmt}.obs.ndjson")
+            tcmds = os.path.join(ctx.rundir, f"c02lextrace_{fmt}.cmds.ndjson")
+            tobs = os.path.join(ctx.rundir, f"c02lextrace_{fmt}.obs.ndjson")
+            with open(tcmds, "w", encoding="utf-8") as g:
+                for i, line in enumerate(open(src, encoding="utf-8")):
+                    o = json.loads(line)["o"]
+                    if "s" in o and (ctx.tier == "thorough" or i % 3 == ctx.seed % 3):
+                        g.write(json.dumps({"op": "trace_lex", "fmt": fmt, "s": o["s"]}, ensure_ascii=False) + "\n")
+            K.account(ctx, tcmds, lambda c: True)
+            K.run_exec(ctx, tcmds, tobs)
+            K.run_judge(ctx, "J_LexTrace", fmt, tobs, f"c02lextrace_{fmt}_judge", shards=2 if ctx.tier == "quick" else 5)
+        return run
+    K.parallel([lextrace(f) for f in K.FORMATS])
     exotic_stage(K, ctx, "c02exotic", "rt_lex", "J_C02")
     # seeded random lexical values: what the real lexical parser reads from the real enum formatter's text of random enum values
     # (rich names, random floats, huge stamps, depth <= 6) goes through the lexical format / parse round trip
